@@ -114,8 +114,8 @@ func buildIndexFile(kind string, rows []map[string]string, path string) ([]uint3
 	select {
 	case r := <-ch:
 		return r.ids, r.err
-	case <-time.After(120 * time.Second):
-		return nil, fmt.Errorf("hang: writer did not finish within 120s")
+	case <-time.After(200 * time.Second * watchdogScale):
+		return nil, fmt.Errorf("hang: writer did not finish in time")
 	}
 }
 
@@ -228,8 +228,8 @@ func openIdx(path string, preload bool, cache int64) (*updog.Index, *updog.LRUCa
 	select {
 	case r := <-ch:
 		return r.idx, lru, r.err
-	case <-time.After(20 * time.Second):
-		return nil, nil, fmt.Errorf("hang: OpenIndex did not return within 20s")
+	case <-time.After(20 * time.Second * watchdogScale):
+		return nil, nil, fmt.Errorf("hang: OpenIndex did not return in time")
 	}
 }
 
